@@ -338,6 +338,70 @@ let string_of_lexerr = function
   | LEUnknownToken -> "unknown-token" | LEUnendingString -> "unending-string"
   | LEUnendingBlockComment -> "unending-block-comment" | LEUnendingRegexp -> "unending-regexp"
 
+(* ---------- Coq-term printers (cross-check of the extraction: the terms are re-checked by coqc) ---------- *)
+let cq_n (x : n) = string_of_int (int_of_n x) ^ "%N"
+let cq_nat (x : nat) = string_of_int (int_of_nat x) ^ "%nat"
+let cq_z (x : z) = "(" ^ string_of_z x ^ ")%Z"
+let cq_bool b = if b then "true" else "false"
+let cq_list f l = "[" ^ String.concat "; " (List.map f l) ^ "]"
+let cq_bytes (b : bytes) = "(" ^ cq_list cq_n b ^ " : list N)"
+let cq_cls c = match c with
+  | CAny -> "CAny" | CWhitespace -> "CWhitespace" | CDigit -> "CDigit" | CUpper -> "CUpper" | CLower -> "CLower" | CLetter -> "CLetter"
+  | CLineStart -> "CLineStart" | CFileStart -> "CFileStart" | CWordStart -> "CWordStart" | CLineEnd -> "CLineEnd" | CFileEnd -> "CFileEnd"
+  | CWordEnd -> "CWordEnd" | CWholeLine -> "CWholeLine" | CWholeFile -> "CWholeFile" | CWholeWord -> "CWholeWord"
+let cq_binop o = "O" ^ (match string_of_binop o with
+  | "AND" -> "And" | "OR" -> "Or" | "PLUS" -> "Plus" | "MINUS" -> "Minus" | "MULT" -> "Mult" | "DIV" -> "Div" | "MOD" -> "Mod"
+  | "LESS" -> "Less" | "GREATER" -> "Greater" | "LESSEQ" -> "LessEq" | "GREATEREQ" -> "GreaterEq" | "DEQUAL" -> "DEqual" | _ -> "NEqual")
+let cq_unop = function UNot -> "UNot" | UHead -> "UHead" | UTail -> "UTail"
+let rec cq_pexpr = function
+  | PEBin (o, l, r) -> "(PEBin " ^ cq_binop o ^ " " ^ cq_pexpr l ^ " " ^ cq_pexpr r ^ ")"
+  | PEUn (o, e) -> "(PEUn " ^ cq_unop o ^ " " ^ cq_pexpr e ^ ")"
+  | PEStr v -> "(PEStr " ^ cq_bytes v ^ ")"
+  | PENum v -> "(PENum " ^ cq_z v ^ ")"
+  | PEBool v -> "(PEBool " ^ cq_bool v ^ ")"
+  | PEVar v -> "(PEVar " ^ cq_bytes v ^ ")"
+let rec cq_pstmt = function
+  | PSSet (n, e) -> "(PSSet " ^ cq_bytes n ^ " " ^ cq_pexpr e ^ ")"
+  | PSReturn e -> "(PSReturn " ^ cq_pexpr e ^ ")"
+  | PSIf (c, t, f) -> "(PSIf " ^ cq_pexpr c ^ " " ^ cq_pstmts t ^ " " ^ cq_pstmts f ^ ")"
+  | PSDebug e -> "(PSDebug " ^ cq_pexpr e ^ ")"
+  | PSLoop b -> "(PSLoop " ^ cq_pstmts b ^ ")"
+  | PSContinue -> "PSContinue" | PSBreak -> "PSBreak"
+and cq_pstmts = function PNil -> "PNil" | PCons (s, r) -> "(PCons " ^ cq_pstmt s ^ " " ^ cq_pstmts r ^ ")"
+let cq_listable = function
+  | LiStr (a, b, v) -> "(LiStr " ^ cq_bool a ^ " " ^ cq_bool b ^ " " ^ cq_bytes v ^ ")"
+  | LiClass (a, c) -> "(LiClass " ^ cq_bool a ^ " " ^ cq_cls c ^ ")"
+  | LiRange (f, t) -> "(LiRange " ^ cq_bytes f ^ " " ^ cq_bytes t ^ ")"
+let rec cq_expr = function
+  | ELoop (mn, mx, fw, nm, b) -> "(ELoop " ^ cq_nat mn ^ " " ^ cq_z mx ^ " " ^ cq_bool fw ^ " " ^ cq_bytes nm ^ " " ^ cq_expr b ^ ")"
+  | EBranch (l, r) -> "(EBranch " ^ cq_lit l ^ " " ^ cq_expr r ^ ")"
+  | EDec (n, l) -> "(EDec " ^ cq_bytes n ^ " " ^ cq_lit l ^ ")"
+  | ESub (n, b) -> "(ESub " ^ cq_bytes n ^ " " ^ cq_exprs b ^ ")"
+  | EList (a, items) -> "(EList " ^ cq_bool a ^ " " ^ cq_list cq_listable items ^ ")"
+  | EPrim l -> "(EPrim " ^ cq_lit l ^ ")"
+and cq_lit = function
+  | LStr (a, b, v) -> "(LStr " ^ cq_bool a ^ " " ^ cq_bool b ^ " " ^ cq_bytes v ^ ")"
+  | LSubExpr b -> "(LSubExpr " ^ cq_exprs b ^ ")"
+  | LVar n -> "(LVar " ^ cq_bytes n ^ ")"
+  | LClass (a, c) -> "(LClass " ^ cq_bool a ^ " " ^ cq_cls c ^ ")"
+and cq_exprs = function ENil -> "ENil" | ECons (e, r) -> "(ECons " ^ cq_expr e ^ " " ^ cq_exprs r ^ ")"
+let cq_atom = function
+  | AStr (a, b, v) -> "(AStr " ^ cq_bool a ^ " " ^ cq_bool b ^ " " ^ cq_bytes v ^ ")"
+  | AVar n -> "(AVar " ^ cq_bytes n ^ ")"
+let rec cq_command = function
+  | CFind (a, s, t, l, b) -> "(CFind " ^ cq_bool a ^ " " ^ cq_nat s ^ " " ^ cq_nat t ^ " " ^ cq_nat l ^ " " ^ cq_exprs b ^ ")"
+  | CReplace (a, s, t, l, b, r) -> "(CReplace " ^ cq_bool a ^ " " ^ cq_nat s ^ " " ^ cq_nat t ^ " " ^ cq_nat l ^ " " ^ cq_exprs b ^ " " ^ cq_list cq_atom r ^ ")"
+  | CSetPattern (id, p, s) -> "(CSetPattern " ^ cq_bytes id ^ " " ^ cq_exprs p ^ " " ^ cq_pstmts s ^ ")"
+  | CSetTransform (id, s) -> "(CSetTransform " ^ cq_bytes id ^ " " ^ cq_pstmts s ^ ")"
+  | CSetMatches (id, c) -> "(CSetMatches " ^ cq_bytes id ^ " " ^ cq_command c ^ ")"
+let cq_lexerr = function
+  | LEUnknownToken -> "LEUnknownToken" | LEUnendingString -> "LEUnendingString"
+  | LEUnendingBlockComment -> "LEUnendingBlockComment" | LEUnendingRegexp -> "LEUnendingRegexp"
+let cq_front = function
+  | FOk p -> "(FOk " ^ cq_list cq_command p ^ ")"
+  | FLexErr e -> "(FLexErr " ^ cq_lexerr e ^ ")"
+  | FParseErr -> "FParseErr" | FCrash -> "FCrash" | FHang -> "FHang"
+
 let fuel_of_opt = function [] -> vm_fuel_default | x :: _ -> nat_of x
 
 let handle (case : sx) : string =
@@ -427,6 +491,20 @@ let handle (case : sx) : string =
        | FParseErr -> id ^ "\t(parseerr)"
        | FCrash -> id ^ "\t(crash)"
        | FHang -> id ^ "\t(hang)")
+  | L [A id; A "coqparse"; src] ->
+      (* the extracted parser's result as a Coq term, together with the source as a Coq term *)
+      let runes = runes_of_bytes (by_of src) in
+      id ^ "\t" ^ "parse_source " ^ cq_bytes runes ^ " = " ^ cq_front (parse_source runes)
+  | L [A id; A "coqspans"; ast; text] ->
+      (* the spans the extracted generator + VM find, as a Coq term *)
+      let p = program_of ast in
+      let t = by_of text in
+      let res = (match compile_ast p with
+        | GErr _ -> "None"
+        | GOk bc -> (match run_commands vm_fuel_default t bc with
+            | ROk ms -> "Some " ^ cq_list (fun m -> "(" ^ cq_nat m.mstart ^ ", " ^ cq_nat m.mend ^ ")") ms
+            | _ -> "None")) in
+      id ^ "\t" ^ "spans_of " ^ cq_list cq_command p ^ " " ^ cq_bytes t ^ " = " ^ res
   | L (A id :: A "pm" :: pat :: [L names]) ->
       id ^ "\t" ^ paren (List.map (fun nm -> bl (pm (by_of nm) (by_of pat))) names)
   | L (A id :: A "glob" :: tree :: [L pats]) ->
